@@ -100,6 +100,9 @@ func (p pos) info(l *lookup) (fileName, funcName string, line, column int) {
 	return fileName, funcName, line, column
 }
 
+// line is the source line alone, without resolving the file and function names.
+func (p pos) line() int { return int((p >> 16) & 0xffff) }
+
 func (p pos) String(l *lookup) string {
 	fileName, funcName, line, column := p.info(l)
 	if funcName != "" {
@@ -1030,7 +1033,9 @@ func (c *compiler) doOptimize(in []instruction) []instruction {
 		case n < len(in)-2 && in[n].Code == codeLocalGet && in[n+1].Code == codePush && in[n+2].Code == codeSet:
 			out = append(out, instruction{Pos: in[n+2].Pos, Code: codeFastSetInt, A: in[n].A, B: in[n+1].A})
 			n += 2
-		case n < len(in)-2 && in[n].Code == codeLocalGet && in[n+1].Code == codeGetAttr && in[n+2].Code == codeCall:
+		case n < len(in)-2 && in[n].Code == codeLocalGet && in[n+1].Code == codeGetAttr && in[n+2].Code == codeCall && in[n+1].Pos.line() == in[n+2].Pos.line():
+			// both the attribute lookup and the call can fail, and the folded instruction has
+			// one position: a selector and a call on different lines stay separate instructions
 			out = append(out, instruction{Pos: in[n+2].Pos, Code: codeFastCallAttr, A: in[n].A, B: in[n+1].A, C: joinParams(in[n+2].A, in[n+2].B)})
 			n += 2
 		case n < len(in)-1 && in[n].Code == codeGlobalGet && in[n+1].Code == codeCall:
